@@ -102,10 +102,11 @@ def info(tier):
     cells = [f"{a}|{path}" for a in SCALAR_ATOMS for path in ("gradient", "jacobian", "jacobian-multirow", "hessian")]
     cells += [f"{a}|{path}|{v}" for a in VECTOR_ATOMS for path in ("gradient", "jacobian", "hessian") for v in VRELS]
     cells += ["norm2@origin|gradient", "norm2@origin|jacobian", "norm2@one-zero|gradient"]
+    cells += [f"deep:{a}|{path}" for a in list(SCALAR_ATOMS) + list(VECTOR_ATOMS) for path in ("gradient", "jacobian", "hessian")]
     return {
         "level": LEVEL,
         "rule": "separable sums of singular atoms (17 scalar, 7 vectorised, L2 norm) with coefficients of both signs and a "
-        "regular remainder, evaluated at points with some coordinates exactly singular; every entry of compile_gradient / "
+        "regular remainder, also as term-by-term accumulations of 400+ terms (iterative differentiator / compiler), evaluated at points with some coordinates exactly singular; every entry of compile_gradient / "
         "compile_jacobian (1 and several rows) / compile_hessian output checked: finite always, exact class at singular "
         "coordinates of first derivatives, jet value at regular coordinates, vectorised == element-wise spelling; "
         "distinct = canonical (recipe, V, point) hashes",
@@ -256,6 +257,37 @@ def run_item(rec, rng, item):
     except Exception as ex:
         rec.violation("build-raises:" + type(ex).__name__, {"show": show, "error": repr(ex)[:200]})
         return
+    if item.get("deep"):
+        # the same formula as a term-by-term accumulation beyond the depth at which the iterative algorithms take over:
+        # `deep` regular terms c_k * s are added one at a time, the singular atoms sitting at the bottom ("inner") or the top ("outer")
+        # of the left spine.  The reference is the shallow formula plus sum(c_k) on the entry of s (s enters linearly: no second derivatives).
+        import optyx
+
+        s_obj = b.variables(["s"])[0]
+        cs = [((k * 7) % 11 - 5) * 0.125 for k in range(item["deep"])]
+        csum = float(sum(cs))
+
+        def pad(e):
+            if item["where"] == "inner":
+                for c in cs:
+                    e = e + c * s_obj
+                return e
+            acc = cs[0] * s_obj
+            for c in cs[1:]:
+                acc = acc + c * s_obj
+            return acc + e
+
+        ev, ee = pad(ev), pad(ee)
+        if "s" not in V:
+            V = V + ["s"]
+            point.setdefault("s", 0.8)
+            shifted.setdefault("s", 0.8)
+            j, _ = R.ref_jet(D, node_v, V, shifted, order=1)
+            expected = {i: (("exact", expected_entry(*sing[nm])) if nm in sing else ("jet", float(j.g[i]))) for i, nm in enumerate(V)}
+        si = V.index("s")
+        expected[si] = ("jet", expected[si][1] + csum)
+        show = {**show, "V": V, "point": {k: point[k] for k in V}, "expr": f"[{item['deep']} terms c_k*s accumulated {item['where']}] " + show["expr"]}
+        rec.events["deep-accumulation-items"] += 1
     Vobjs = b.variables(V)
     x = B.point_array(V, point)
     vr = "|" + item["vrel"] if item.get("vec_cell") else ""
@@ -286,7 +318,7 @@ def run_item(rec, rng, item):
                 if not np.allclose(a1, a2, rtol=1e-9, atol=1e-12):
                     rec.violation(f"{route}:vectorised-and-general-paths-disagree", {"show": show, "vectorised": a1.tolist(), "general": a2.tolist()})
 
-    if item.get("multirow"):
+    if item.get("multirow") and not item.get("deep"):
         # three rows: a regular row, this expression, and -2 * this expression
         try:
             Vm = V if "s" in V else V + ["s"]
@@ -375,6 +407,16 @@ def directed_items():
                 for coef in (1.0, -1.5):
                     items.append({"terms": [(coef, aname, "x", sidx)], "regular": (k + len(sidx)) % 4, "vrel": vrel,
                                   "cell": aname, "vec_cell": True})
+    # deep accumulations (iterative gradient / compiler): every atom, both positions
+    for k, aname in enumerate(SCALAR_ATOMS):
+        other = list(SCALAR_ATOMS)[(k + 3) % len(SCALAR_ATOMS)]
+        for where in ("inner", "outer"):
+            items.append({"terms": [(1.0 if where == "inner" else -2.0, aname, "a", True), (1.5, other, "b", False)], "regular": 1 if k % 2 else 0,
+                          "vrel": VRELS[k % 4], "cell": "deep:" + aname, "deep": 405 + 10 * (k % 3), "where": where})
+    for k, aname in enumerate(VECTOR_ATOMS):
+        for where, sidx in (("inner", (0, 2)), ("outer", (1,))):
+            items.append({"terms": [(1.0, aname, "x", sidx), (1.0, "abs@0", "b", False)], "regular": k % 2, "vrel": VRELS[(k + 1) % 4], "cell": "deep:" + aname,
+                          "deep": 402 + k, "where": where})
     for vrel in VRELS:
         items.append({"terms": [(1.0, "norm2", "y", "origin")], "regular": 0, "vrel": vrel, "cell": "norm2@origin"})
         items.append({"terms": [(2.0, "norm2", "y", "origin")], "regular": 1, "vrel": vrel, "cell": "norm2@origin"})
@@ -396,7 +438,10 @@ def random_item(rng):
         else:
             sidx = tuple(sorted(rng.sample(range(4), rng.randint(0, 4))))
             terms.append((rng.choice([1.0, 2.0, -1.5]), an, "x", sidx))
-    return {"terms": terms, "regular": rng.randrange(4), "vrel": rng.choice(VRELS), "multirow": rng.random() < 0.3, "cell": "random"}
+    item = {"terms": terms, "regular": rng.randrange(4), "vrel": rng.choice(VRELS), "multirow": rng.random() < 0.3, "cell": "random"}
+    if rng.random() < 0.04:
+        item.update(deep=rng.choice([399, 400, 401, 450]), where=rng.choice(["inner", "outer"]))
+    return item
 
 
 def run(ctx, rec):
